@@ -1,2 +1,64 @@
-Theorem C14_placeholder : True. Proof. exact I. Qed.
-Print Assumptions C14_placeholder.
+(* C14 — simulators and assemblies are isolated, repeatable and safe to use concurrently.
+   What a proof about a model can carry of this property:
+   (1) copy isolation, in a store model of Go slices (model/Alias.v: backing arrays by
+       address, WarriorData.Copy allocates, addWarrior keeps only the copy);
+   (2) map iteration order: the EQU cycle check (graph.go, model/ExprEval.v) gives the same
+       answer for every order in which the map of names is ranged over;
+   (3) schedules: jobs whose steps write only their own state end in the same state under
+       every interleaving — with (4) the literal models being functions of their arguments,
+       so that repeating a job repeats its result.
+   That gmars has no package-level mutable state, that goroutines hand tokens over channels
+   only, and the absence of data races are facts about the Go runtime and source which no
+   executable model expresses: they are checked on every run by the harness built with
+   -race (jobs on 1..32 threads, results compared with the sequential ones). *)
+From GM Require Import Base Text Token Lexer Scanner ExprSpec ExprEval Compile Sim Alias C14Proof.
+From Coq Require Import Permutation.
+Open Scope N_scope.
+
+(* (1) after AddWarrior, writes through the caller's slice never show in what the simulator
+   loads, and writes to the simulator's copy never show in the caller's data *)
+Theorem C14_copy_isolation :
+  forall s held w s' held' i x,
+    store_wf s -> wd_code w < st_next s -> sim_add s held w = (s', held') ->
+    sim_code (write s' (wd_code w) i x) held' (length held) = read s (wd_code w) /\
+    (forall c, nth_error held' (length held) = Some c ->
+       read (write s' (wd_code c) i x) (wd_code w) = read s (wd_code w)).
+Proof. exact copy_isolation. Qed.
+Print Assumptions C14_copy_isolation.
+
+(* adding a warrior leaves every warrior already held, and the caller's data, as they were *)
+Theorem C14_add_frames :
+  forall s held w s' held',
+    store_wf s -> wd_code w < st_next s -> Forall (fun c => wd_code c < st_next s) held ->
+    sim_add s held w = (s', held') ->
+    store_wf s' /\ Forall (fun c => wd_code c < st_next s') held' /\ length held' = S (length held) /\
+    sim_code s' held' (length held) = read s (wd_code w) /\
+    (forall k, (k < length held)%nat -> sim_code s' held' k = sim_code s held k) /\
+    read s' (wd_code w) = read s (wd_code w) /\
+    (forall c, In c held' -> ~ In c held -> wd_code c <> wd_code w /\ wd_code c < st_next s').
+Proof. exact add_copies. Qed.
+Print Assumptions C14_add_frames.
+
+(* (2) the cycle check does not depend on the order in which Go ranges over the map *)
+Theorem C14_cycle_check_order :
+  forall g g' : graph,
+    Permutation g g' -> NoDup (map fst g) ->
+    (forall kv, In kv g -> node_cycle (S (S (length g))) g (fst kv) [] <> None) ->
+    graph_has_cycle g' = graph_has_cycle g.
+Proof. exact cycle_check_order_independent. Qed.
+Print Assumptions C14_cycle_check_order.
+
+(* (3) whatever the interleaving of steps, every job ends where it ends when run alone *)
+Theorem C14_schedule_independent_partial :
+  forall (S : Type) (step : nat -> S -> S) sched sigma i,
+    run_schedule S step sched sigma i = iter S (count_occ Nat.eq_dec sched i) (step i) (sigma i).
+Proof. exact schedule_independent. Qed.
+Print Assumptions C14_schedule_independent_partial.
+
+(* instance: simulators stepping RunCycle in any interleaving *)
+Definition cycle_of (s : sim) : sim := match run_cycle s with Ok (s', _, _) => s' | _ => s end.
+Theorem C14_simulators_interleaved :
+  forall sched sigma i,
+    run_schedule sim (fun _ => cycle_of) sched sigma i = iter sim (count_occ Nat.eq_dec sched i) cycle_of (sigma i).
+Proof. intros. apply schedule_independent. Qed.
+Print Assumptions C14_simulators_interleaved.
